@@ -147,6 +147,8 @@ pub struct XPubSocket {
     pub(crate) backend: Arc<XPubSocketBackend>,
     fair_queue: FairQueue<ZmqFramedRead, PeerIdentity>,
     binds: HashMap<Endpoint, AcceptStopHandle>,
+    /// Publishes in a row that left something buffered (see `backend::yield_once`)
+    unflushed_publishes: usize,
 }
 
 impl Drop for XPubSocket {
@@ -165,6 +167,7 @@ impl SocketSend for XPubSocket {
             });
         }
         let mut dead_peers = Vec::new();
+        let mut unflushed = false;
         // The walk is not a snapshot: when the table shrinks under it (subscribers leaving on
         // other threads) it resumes at an earlier bucket and meets entries again.
         let mut served = std::collections::HashSet::new();
@@ -182,7 +185,7 @@ impl SocketSend for XPubSocket {
                         .send_queue
                         .try_send(Message::Message(message.clone()));
                     match res {
-                        Ok(()) => {}
+                        Ok(flushed) => unflushed |= !flushed,
                         Err(ZmqError::Codec(CodecError::Io(e))) => {
                             if e.kind() == ErrorKind::BrokenPipe {
                                 dead_peers.push((subscriber.key().clone(), subscriber.conn));
@@ -194,6 +197,7 @@ impl SocketSend for XPubSocket {
                             // Silently drop the message if the queue for a subscriber is full.
                             // https://rfc.zeromq.org/spec/29/
                             log::debug!("Queue for subscriber is full");
+                            unflushed = true;
                         }
                         Err(e) => {
                             log::error!("Error sending message: {:?}", e);
@@ -207,6 +211,15 @@ impl SocketSend for XPubSocket {
         }
         for (peer, conn) in dead_peers {
             crate::backend::ForgetConn::forget_conn(&*self.backend, &peer, conn);
+        }
+        if unflushed {
+            self.unflushed_publishes += 1;
+            if self.unflushed_publishes >= crate::backend::UNFLUSHED_PUBLISHES_BEFORE_YIELD {
+                self.unflushed_publishes = 0;
+                crate::backend::yield_once().await;
+            }
+        } else {
+            self.unflushed_publishes = 0;
         }
         Ok(())
     }
@@ -263,6 +276,7 @@ impl Socket for XPubSocket {
             backend,
             fair_queue,
             binds: HashMap::new(),
+            unflushed_publishes: 0,
         }
     }
 
